@@ -10,10 +10,27 @@ ld = importlib.machinery.SourceFileLoader('check', os.path.join(V, 'check'))
 spec = importlib.util.spec_from_loader('check', ld); check = importlib.util.module_from_spec(spec); ld.exec_module(check)
 facts = check.ensure_facts('dev')
 fns = []
+sigs = {}
 for c in ('autosar_data', 'autosar_data_specification'):
     d = json.load(open(os.path.join(facts, 'mir-%s.json' % c)))
-    fns += [b['id'] for b in d['bodies'] if b['kind'] != 'Closure']
+    clos = {}
+    for b in d['bodies']:
+        if b['kind'] == 'Closure':
+            base = b['id'].split('::{closure#')[0]
+            clos.setdefault(base, []).append(b)
+    for b in d['bodies']:
+        if b['kind'] == 'Closure':
+            continue
+        fns.append(b['id'])
+        callees = set()
+        for x in [b] + clos.get(b['id'], []):
+            for blk in x['blocks']:
+                t = blk['term']
+                if t['k'] == 'call' and isinstance(t['f'], dict) and t['f'].get('fn'):
+                    callees.add(t['f'].get('res') or t['f']['fn'])
+        # signature and callee set: used to recognise the function again after it was renamed / moved (rules/inline.py reconcile_renames)
+        sigs[b['id']] = {'argc': b['argc'], 'args': [l['ty'] for l in b['locals'][1:b['argc'] + 1]], 'ret': b['ret'], 'callees': sorted(callees)}
 head = os.popen('git -C /repo rev-parse --short HEAD').read().strip()
 json.dump({'generated_at_repo_head': head, 'note': 'functions the rules were written against; any other function is virtually inlined into its callers (rules/inline.py)',
-           'functions': sorted(set(fns))}, open(os.path.join(V, 'tables', 'known_functions.json'), 'w'), indent=0)
+           'functions': sorted(set(fns)), 'signatures': sigs}, open(os.path.join(V, 'tables', 'known_functions.json'), 'w'), indent=0)
 print(len(set(fns)), 'functions')
